@@ -13,7 +13,7 @@ RULE = ("spec: TLC explores Flow.tla / Parallel.tla (templates transcribed step 
 def directive(prop, q=(160, 100, 6), t=(500, 300, 8), par_exec=0):
     def check(c):
         nflow, npar, nscen = q if c.quick else t
-        rounds = 1
+        rounds = 1 if c.quick else 2
         # design level: the templates as transcribed in Flow.tla / Parallel.tla never make the monitor record a
         # violation, for every outcome / schedule / concurrency / cancellation instant of small programs
         if c.quick:
@@ -22,7 +22,7 @@ def directive(prop, q=(160, 100, 6), t=(500, 300, 8), par_exec=0):
             G.spec_directive(c, *G.small_programs(c, 60, 0, max_tasks=4), name="dirbig")
             G.spec_directive(c, *G.small_programs(c, 0, 20, max_insts=5), name="dirbigp", timeout=1500)
         for r in range(rounds):
-            G.pipeline(c, nflow // rounds if not c.quick else nflow, npar // rounds if not c.quick else npar, nscen,
+            G.pipeline(c, nflow, npar, nscen,
                        seed_off=r, par_exec=par_exec, model_traces=900 if c.quick else 2500)
         if prop == "C15":
             import known_probes
